@@ -86,6 +86,8 @@ class Disk:
             rec["sha"] = sha
         if extra:
             rec.update(extra)
+        if getattr(self, "current_ckpt", None) is not None:
+            rec["ckpt"] = self.current_ckpt  # the sampler checkpoint (ordinal) this event belongs to
         inside = self.kill_inside.get(i)
         rel_fault = None
         if self.signal_base is not None:
